@@ -48,6 +48,8 @@ type server struct {
 	lds   *core.ConfigGeneratorImpl
 	// addresses of the east-west gateways of the world (for attributing differences, explain.go)
 	gatewayAddrs map[string]bool
+	// observation of pushes, invalidations and cache writes (history monitor only, poke.go)
+	in *instr
 }
 
 func waitIdle(ds *xds.DiscoveryServer) {
@@ -69,6 +71,12 @@ func firstLine(s string) string {
 }
 
 func startServer(opts xdsfake.FakeOptions, shards func(*model.EndpointIndex)) *server {
+	return startServerWith(opts, shards, 0)
+}
+
+// startServerWith: initContextListDelay > 0 additionally puts the observing cache wrapper and the slow config store
+// (poke.go) in place.
+func startServerWith(opts xdsfake.FakeOptions, shards func(*model.EndpointIndex), initContextListDelay time.Duration) *server {
 	if !features.EnableXDSCaching || !features.EnableCDSCaching || !features.EnableRDSCaching {
 		vh.Abort("xDS caching is disabled by the environment")
 	}
@@ -92,6 +100,12 @@ func startServer(opts xdsfake.FakeOptions, shards func(*model.EndpointIndex)) *s
 	s.cache = env.Cache
 	if _, disabled := s.cache.(model.DisabledCache); disabled {
 		vh.Abort("environment cache is disabled")
+	}
+	if initContextListDelay > 0 {
+		// Both writes happen while the server is idle, like the one below. The endpoint index keeps the inner cache.
+		s.in = newInstr(env, initContextListDelay)
+		s.cache = &obsCache{XdsCache: s.cache, in: s.in}
+		env.ConfigStore = &slowStore{ConfigStore: env.ConfigStore, in: s.in}
 	}
 	s.ds.Cache = s.cache
 	stop := make(chan struct{})
@@ -134,19 +148,22 @@ var cacheTypes = []string{"cds", "eds", "rds"}
 type output struct {
 	order map[string][]string          // type -> resource names in response order
 	res   map[string]map[string][]byte // type -> name -> type URL + serialized resource
+	ptr   map[string]map[string]*discovery.Resource // type -> name -> the object handed out (identifies a cache entry)
 	hits  map[string]int
 	total map[string]int // resources that went through the cache lookup
 }
 
 func newOutput() *output {
-	return &output{order: map[string][]string{}, res: map[string]map[string][]byte{}, hits: map[string]int{}, total: map[string]int{}}
+	return &output{order: map[string][]string{}, res: map[string]map[string][]byte{}, ptr: map[string]map[string]*discovery.Resource{}, hits: map[string]int{}, total: map[string]int{}}
 }
 
 func (o *output) add(typ string, rs model.Resources) {
 	if o.res[typ] == nil {
 		o.res[typ] = map[string][]byte{}
+		o.ptr[typ] = map[string]*discovery.Resource{}
 	}
 	for _, r := range rs {
+		o.ptr[typ][r.Name] = r
 		o.order[typ] = append(o.order[typ], r.Name)
 		b := append([]byte(r.Resource.GetTypeUrl()+"\x00"), r.Resource.GetValue()...)
 		if _, dup := o.res[typ][r.Name]; dup {
